@@ -55,6 +55,44 @@ def judgeC18 (id rest impl : String) : Verdict :=
     oi := oracleC18 c c.ops io && inert io io2?, om := oracleC18 c c.ops mo && inert mo mo2,
     nt := finishOkOps c.ops io && c.cfg.md.isSome }
 
+/-- C13: prefix, error iff a write failed, silence afterwards, transparency -/
+def oracleC13 (c : PCase) (a : PObs) (clean? : Option PObs) : Bool :=
+  match clean? with
+  | none => false
+  | some clean =>
+    let full := clean.file
+    let isPrefix := a.file.length ≤ full.length && full.take a.file.length == a.file
+    let noPanic := !(a.replies.any fun r => r.1 == PR.panic)
+    let zr := List.zip c.ops a.replies
+    -- first finish attempt
+    let fi := (List.range zr.length).find? fun i => match zr[i]? with | some (op, _) => isFinishOp op | none => false
+    let finOk := match fi with
+      | none => a.file.isEmpty
+      | some i =>
+        match zr[i]?, clean.replies[i]? with
+        | some (_, (r, n)), some (cr, _) =>
+          let cleanOk := isFinishOk cr
+          let delivered := a.file == full
+          -- a write failed iff not everything was delivered (given the fault-free run succeeds)
+          (if cleanOk then (isFinishOk r == delivered) else !isFinishOk r) &&
+          n == a.file.length &&
+          (match r, cr with
+           | .stats v au d b, .stats v' au' d' b' => v == v' && au == au' && d == d' && b == b' && b == full.length
+           | _, _ => true) &&
+          (zr.drop (i + 1)).all (fun (_, (r', n')) => n' == 0 && !(opAccepted (r', n') || isFinishOk r'))
+        | _, _ => false
+    isPrefix && noPanic && finOk
+
+def judgeC13 (id rest impl : String) : Verdict :=
+  let c := parsePCase id rest
+  let mo := runP c
+  let mo2 := runPTwin c mo
+  let (io, io2?) := parsePObs2 impl
+  let proj (a : PObs) : String := " ".intercalate (a.replies.map fun (r, n) =>
+    (match r with | .ok => "ok" | .stats .. => "ok" | .err v _ => "err:" ++ v | .panic => "panic" | .other s => s) ++ s!"+{n}") ++ "|" ++ hex a.file
+  { corr := proj mo == proj io && (mo2.map proj) == (io2?.map proj), oi := oracleC13 c io io2?, om := oracleC13 c mo mo2,
+    nt := match io2? with | some cl => io.file.length < cl.file.length || c.policy.cap.isSome || !c.policy.intr.isEmpty || !c.policy.script.isEmpty | none => false }
+
 def regionC06 (c : PCase) (o : PObs) : String :=
   if reordered (accV c.ops o) then "reordered-duration" else "-"
 
@@ -80,6 +118,7 @@ def judge (prop kind id rest impl : String) : Verdict :=
                (nt := fun c o => finishOkOps c.ops o && !(accA c.ops o).isEmpty)
   | "C08" => judgeC08 id rest impl
   | "C18" => judgeC18 id rest impl
+  | "C13" => judgeC13 id rest impl
   | "C10" => judgeFrag id rest impl projC10 oracleC10
   | "C11" => judgeFrag id rest impl projC11 oracleC11
   | "C04" => judgeC04 id rest impl
